@@ -1,7 +1,35 @@
-(* C08: selector/template agreement along a whole directive chain (default tables, no custom fields,
-   no key set twice): the single-run theorems composed through the node-sharing semantics. *)
-From KV Require Import Res.Labels Res.LabelsProofs Res.LabelsGen Res.LabelsAlias.
+(* C08: whole directive chains (default tables, no custom fields): how selectors evolve, and
+   selector/template agreement after the chain - the single-run theorems composed. *)
+From KV Require Import Res.Labels Res.LabelsProofs Res.LabelsGen.
 From Coq Require Import Permutation.
+
+Lemma insert_kv_perm x l : Permutation (insert_kv x l) (x :: l).
+Proof.
+  induction l as [|y t IH]; cbn; [apply Permutation_refl|].
+  destruct (String.ltb (fst x) (fst y)); [apply Permutation_refl|].
+  eapply Permutation_trans; [apply perm_skip; exact IH|apply perm_swap].
+Qed.
+Lemma sort_pairs_perm l : Permutation (sort_pairs l) l.
+Proof.
+  induction l as [|x t IH]; cbn; [apply Permutation_refl|].
+  eapply Permutation_trans; [apply insert_kv_perm|apply perm_skip; exact IH].
+Qed.
+
+(* how a label map evolves: every key keeps its value or takes a value from L *)
+Definition ev (L s s' : pairs) : Prop :=
+  forall k, lookup k s' = lookup k s \/ exists v, In (k, v) L /\ lookup k s' = Some v.
+
+Lemma ev_refl L s : ev L s s.
+Proof. intros k; left; reflexivity. Qed.
+Lemma ev_mono L L' s s' : (forall kv, In kv L -> In kv L') -> ev L s s' -> ev L' s s'.
+Proof. intros H E k. destruct (E k) as [E1|(v & Hin & E1)]; [left; auto|right; exists v; auto]. Qed.
+Lemma ev_trans L s1 s2 s3 : ev L s1 s2 -> ev L s2 s3 -> ev L s1 s3.
+Proof.
+  intros E1 E2 k. destruct (E2 k) as [H2|H2]; [|right; exact H2].
+  rewrite H2. apply E1.
+Qed.
+Lemma ev_same L s s' : (forall k, lookup k s' = lookup k s) -> ev L s s'.
+Proof. intros H k; left; apply H. Qed.
 
 Section KeysExtra.
   Variable nonstr : string -> bool.
@@ -31,6 +59,22 @@ Section KeysExtra.
       + destruct Hl as [Hl|[Hl _]]; rewrite Hl; [|reflexivity].
         apply lookup_upd_other. intros ->. apply Hk. left; reflexivity.
       + intros Hin. apply Hk. right; exact Hin.
+  Qed.
+
+  Lemma keys_ev qs fss : forall kvs obj obj',
+    rows_okP qs fss obj -> keys_pass nonstr fss kvs obj = Ok obj' ->
+    ev kvs (labels_at qs obj) (labels_at qs obj').
+  Proof.
+    induction kvs as [|[k0 v0] t IH]; intros obj obj' Hok H.
+    - inv H. apply ev_refl.
+    - cbn [keys_pass] in H. destruct (key_pass nonstr fss (k0, v0) obj) as [o1| | |] eqn:EP; cbn [bind] in H; try discriminate.
+      destruct (pass_effect nonstr k0 v0 qs fss obj o1 Hok EP) as (Hg & _ & _ & Hl & _).
+      pose proof (IH o1 obj' (rows_okP_same _ _ _ _ Hg Hok) H) as E2.
+      intros k. destruct (E2 k) as [H2|(v & Hin & H2)]; [|right; exists v; split; [right; exact Hin|exact H2]].
+      rewrite H2. destruct Hl as [Hl|[Hl _]]; rewrite Hl; [|left; reflexivity].
+      destruct (String.eqb k k0) eqn:E.
+      + apply String.eqb_eq in E; subst k0. right. exists v0. split; [left; reflexivity|apply lookup_upd_same].
+      + left. apply lookup_upd_other. intros ->. rewrite String.eqb_refl in E. discriminate.
   Qed.
 End KeysExtra.
 
@@ -128,54 +172,91 @@ Section Chain.
   Qed.
 End Chain.
 
+
+(* ---------- how the selector of ANY selecting object evolves through one run ---------- *)
+Section SelRuns.
+  Variable nonstr : string -> bool.
+
+  Lemma sel_of_path x sp : sel_path_of x = Some sp -> sel_of x = labels_at (path_splitter sp) x.
+  Proof. intros H. unfold sel_of. rewrite H. reflexivity. Qed.
+
+  Lemma selrun_selector (L : pairs) x x' sp :
+    sel_path_of x = Some sp -> label_filter nonstr L gen_common_labels_fs x = Ok x' ->
+    sel_path_of x' = Some sp /\ ev L (sel_of x) (sel_of x').
+  Proof.
+    intros Hsp H. pose proof (wf_common_sel _ _ Hsp) as Wsp.
+    pose proof (keys_gvk_same nonstr _ _ _ _ _ Wsp H) as Hg.
+    assert (Hsp' : sel_path_of x' = Some sp) by (rewrite (gvk_same_sel_path _ _ Hg); exact Hsp).
+    split; [exact Hsp'|]. rewrite (sel_of_path _ _ Hsp), (sel_of_path _ _ Hsp').
+    eapply ev_mono; [|apply (keys_ev nonstr _ _ _ _ _ Wsp H)]. intros kv. apply sort_pairs_in.
+  Qed.
+
+  Lemma selrun_nonselector (p : pairs) (t : bool) fss x x' sp :
+    label_fs default_tc (mkLD p false t []) = Ok fss ->
+    sel_path_of x = Some sp -> label_filter nonstr p fss x = Ok x' ->
+    sel_path_of x' = Some sp /\ sel_of x' = sel_of x.
+  Proof.
+    intros Hfs Hsp H. pose proof Hfs as Hfs0. rewrite label_fs_no_fields in Hfs0.
+    destruct (entry_no_sel _ _ _ _ Hfs0 Hsp) as [Wsp _].
+    pose proof (keys_gvk_same nonstr _ _ _ _ _ Wsp H) as Hg.
+    split; [rewrite (gvk_same_sel_path _ _ Hg); exact Hsp|].
+    apply (no_selector_change_default nonstr p t fss x x' sp Hfs Hsp H).
+  Qed.
+
+  Lemma selrun_annotations (L : pairs) x x' sp :
+    sel_path_of x = Some sp -> label_filter nonstr L gen_common_annotations_fs x = Ok x' ->
+    sel_path_of x' = Some sp /\ sel_of x' = sel_of x.
+  Proof.
+    intros Hsp H.
+    pose proof gen_rows_wf as W. cbn [forallb entry_tables] in W.
+    apply andb_true_iff in W as [_ W]. apply andb_true_iff in W as [_ W]. apply andb_true_iff in W as [_ W].
+    apply andb_true_iff in W as [W _]. unfold chk_rows_wf in W. apply andb_true_iff in W as [W1 _].
+    rewrite forallb_forall in W1.
+    pose proof (rows_wf_sound _ _ _ x (W1 _ (sel_path_of_in _ _ Hsp)) eq_refl) as Wsp.
+    pose proof gen_annotations_clear as G. unfold chk_annotations_clear in G. apply andb_true_iff in G as [G1 _].
+    rewrite forallb_forall in G1.
+    pose proof (no_rows_at_sound _ _ _ x (G1 _ (sel_path_of_in _ _ Hsp)) eq_refl) as Nsp.
+    cbn [fst snd] in *.
+    destruct (keys_frame nonstr _ _ _ _ _ Wsp Nsp H) as [Es Hg].
+    assert (Hsp' : sel_path_of x' = Some sp) by (rewrite (gvk_same_sel_path _ _ Hg); exact Hsp).
+    split; [exact Hsp'|]. rewrite (sel_of_path _ _ Hsp), (sel_of_path _ _ Hsp'). unfold labels_at. rewrite Es. reflexivity.
+  Qed.
+End SelRuns.
+
+(* ---------- composition along a kustomization and along a chain ---------- *)
 Section Compose.
   Variable nonstr : string -> bool.
 
   Definition dir_ok (d : dirs) : Prop := forall e, In e (d_labels d) -> ld_fields e = [].
 
-  (* the keys of the entries without includeSelectors are compatible with the selector of w *)
-  Definition nonsel_compat (d : dirs) (w : node) : Prop :=
-    forall e, In e (d_labels d) -> ld_selectors e = false ->
-    forall kv, In kv (ld_pairs e) -> compat (fst kv) (snd kv) (sel_of w).
+  (* the pairs written by the runs that include selectors: includeSelectors entries and commonLabels *)
+  Definition sel_pairs_of_dir (d : dirs) : pairs :=
+    (flat_map (fun e => if ld_selectors e then ld_pairs e else []) (d_labels d) ++ d_common_labels d)%list.
+  Definition chain_sel_pairs (ds : list dirs) : pairs := flat_map sel_pairs_of_dir ds.
 
-  Definition lt_ok (d : dirs) (pf : pairs * list fieldspec) : Prop :=
-    snd pf = gen_common_labels_fs \/
-    exists e t, In e (d_labels d) /\ ld_selectors e = false /\ fst pf = ld_pairs e /\
-                label_fs default_tc (mkLD (ld_pairs e) false t []) = Ok (snd pf).
+  (* a configured run, relative to a set G of selector pairs *)
+  Definition lt_sel (G : pairs) (pf : pairs * list fieldspec) : Prop :=
+    snd pf = gen_common_labels_fs /\ forall kv, In kv (fst pf) -> In kv G.
+  Definition lt_nonsel (pf : pairs * list fieldspec) : Prop :=
+    exists t, label_fs default_tc (mkLD (fst pf) false t []) = Ok (snd pf).
 
-  Lemma mapM_entries_ok d : forall l r,
-    (forall e, In e l -> In e (d_labels d) /\ ld_fields e = []) ->
+  Lemma mapM_entries_kinds G : forall l r,
+    (forall e, In e l -> ld_fields e = [] /\ (ld_selectors e = true -> forall kv, In kv (ld_pairs e) -> In kv G)) ->
     mapM (fun e => do fss <- label_fs default_tc e; Ok (ld_pairs e, fss)) l = Ok r ->
-    Forall (lt_ok d) r.
+    Forall2 (fun e pf => fst pf = ld_pairs e /\
+                         ((ld_selectors e = true /\ lt_sel G pf) \/ (ld_selectors e = false /\ lt_nonsel pf))) l r.
   Proof.
     induction l as [|e t IH]; intros r Hin H; cbn [mapM] in H.
     - inv H. constructor.
     - destruct (label_fs default_tc e) as [fss| | |] eqn:Ef; cbn [bind] in H; try discriminate.
       destruct (mapM _ t) as [r'| | |] eqn:E; cbn [bind] in H; try discriminate. inv H.
-      constructor.
-      + destruct (Hin e (or_introl eq_refl)) as [He Hf]. destruct e as [p s tm f]. cbn in Hf. subst f.
-        destruct s.
-        * left. cbn [snd]. rewrite label_fs_selectors in Ef. inv Ef. reflexivity.
-        * right. exists (mkLD p false tm []), tm. cbn [snd fst ld_pairs ld_selectors]. auto.
-      + apply IH; auto. intros e' He'. apply Hin. right; exact He'.
+      constructor; [|apply IH; auto; intros e' He'; apply Hin; right; exact He'].
+      destruct (Hin e (or_introl eq_refl)) as [Hf HG]. destruct e as [p s tm f]. cbn in Hf. subst f.
+      cbn [fst snd ld_pairs ld_selectors] in *. split; [reflexivity|]. destruct s.
+      + left. split; [reflexivity|]. split; [|apply HG; reflexivity].
+        cbn [snd]. rewrite label_fs_selectors in Ef. inv Ef. reflexivity.
+      + right. split; [reflexivity|]. exists tm. exact Ef.
   Qed.
-
-  Lemma label_transformers_ok d lts :
-    dir_ok d -> label_transformers default_tc d = Ok lts -> Forall (lt_ok d) lts.
-  Proof.
-    intros Hd H. unfold label_transformers in H.
-    assert (G : (do l <- mapM (fun e => do fss <- label_fs default_tc e; Ok (ld_pairs e, fss)) (d_labels d);
-                 Ok (l ++ [(d_common_labels d, tc_common_labels default_tc)])%list) = Ok lts -> Forall (lt_ok d) lts).
-    { intros H'. destruct (mapM _ (d_labels d)) as [l| | |] eqn:E; cbn [bind] in H'; try discriminate. inv H'.
-      apply Forall_app. split.
-      - eapply mapM_entries_ok; [|exact E]. intros e He. split; auto.
-      - constructor; [left; reflexivity|constructor]. }
-    destruct (d_labels d) as [|e t] eqn:El; [destruct (d_common_labels d) eqn:Ec|]; auto.
-    inv H. constructor.
-  Qed.
-
-  Lemma compat_stable k v s s' : lookup k s' = lookup k s -> compat k v s -> compat k v s'.
-  Proof. unfold compat. intros ->. auto. Qed.
 
   Lemma run_single p fss w rs :
     run_label_transformer nonstr p fss [w] = Ok rs ->
@@ -186,127 +267,234 @@ Section Compose.
     right. eexists; eauto.
   Qed.
 
-  (* a configured run: selector table, or a non-selector entry whose keys are compatible with w's selector *)
-  Definition lt_ok' (w : node) (pf : pairs * list fieldspec) : Prop :=
-    snd pf = gen_common_labels_fs \/
-    ((exists t, label_fs default_tc (mkLD (fst pf) false t []) = Ok (snd pf)) /\
-     forall kv, In kv (fst pf) -> compat (fst kv) (snd kv) (sel_of w)).
-
-  Lemma lt_ok_ok' d w lts : nonsel_compat d w -> Forall (lt_ok d) lts -> Forall (lt_ok' w) lts.
+  (* ----- selectors of arbitrary selecting objects ----- *)
+  Lemma sel_runs G sp : forall lts x rs,
+    Forall (fun pf => lt_sel G pf \/ lt_nonsel pf) lts ->
+    sel_path_of x = Some sp -> run_transformers nonstr lts [x] = Ok rs ->
+    exists x', rs = [x'] /\ sel_path_of x' = Some sp /\ ev G (sel_of x) (sel_of x').
   Proof.
-    intros Hc H. eapply Forall_impl; [|exact H]. intros [p fss] [Hs|(e & t & He & Hse & Hp & Hfs)]; [left; exact Hs|].
-    right. cbn [fst snd] in *. subst p. split; [exists t; exact Hfs|]. intros kv Hkv. apply (Hc e He Hse kv Hkv).
+    induction lts as [|[p fss] t IH]; intros x rs Hok Hsp H; cbn [run_transformers] in H.
+    - inv H. exists x. split; [reflexivity|]. split; [exact Hsp|apply ev_refl].
+    - inversion Hok as [|? ? Hpf Hok']; subst.
+      destruct (run_label_transformer nonstr p fss [x]) as [rs1| | |] eqn:E1; cbn [bind] in H; try discriminate.
+      assert (Hstep : exists x1, rs1 = [x1] /\ sel_path_of x1 = Some sp /\ ev G (sel_of x) (sel_of x1)).
+      { destruct (run_single _ _ _ _ E1) as [[-> ->]|(x1 & -> & Hf)];
+          [exists x; split; [reflexivity|]; split; [exact Hsp|apply ev_refl]|].
+        exists x1. split; [reflexivity|].
+        destruct Hpf as [[Hs HG]|(tm & Hfs)]; cbn [fst snd] in *.
+        - subst fss. destruct (selrun_selector nonstr p x x1 sp Hsp Hf) as [Hsp1 E]. split; [exact Hsp1|].
+          eapply ev_mono; [exact HG|exact E].
+        - destruct (selrun_nonselector nonstr p tm fss x x1 sp Hfs Hsp Hf) as [Hsp1 E]. split; [exact Hsp1|].
+          rewrite E. apply ev_refl. }
+      destruct Hstep as (x1 & -> & Hsp1 & E1').
+      destruct (IH x1 rs Hok' Hsp1 H) as (x' & -> & Hsp' & E').
+      exists x'. split; [reflexivity|]. split; [exact Hsp'|]. eapply ev_trans; eauto.
   Qed.
 
-  Lemma run_transformers_inv sp tp : forall lts w rs,
-    Forall (lt_ok' w) lts -> NoDup (lts_keys lts) -> inv sp tp w ->
-    run_transformers nonstr lts [w] = Ok rs ->
-    exists w', rs = [w'] /\ inv sp tp w' /\
-               (forall k, ~ In k (lts_keys lts) -> lookup k (sel_of w') = lookup k (sel_of w)).
+  Lemma label_transformers_kinds G d lts :
+    dir_ok d -> (forall kv, In kv (sel_pairs_of_dir d) -> In kv G) ->
+    label_transformers default_tc d = Ok lts ->
+    Forall (fun pf => lt_sel G pf \/ lt_nonsel pf) lts.
   Proof.
-    induction lts as [|[p fss] t IH]; intros w rs Hok Hnd Hinv H; cbn [run_transformers] in H.
-    - inv H. exists w. split; [reflexivity|]. split; [exact Hinv|]. intros; reflexivity.
-    - inversion Hok as [|? ? Hpf Hok']; subst. cbn [lts_keys flat_map fst] in Hnd.
-      destruct (NoDup_app_inv _ _ Hnd) as (Hnd1 & Hnd2 & Hdisj).
-      destruct (run_label_transformer nonstr p fss [w]) as [rs1| | |] eqn:E1; cbn [bind] in H; try discriminate.
-      assert (Hstep : exists w1, rs1 = [w1] /\ inv sp tp w1 /\
-                        (forall k, ~ In k (map fst p) -> lookup k (sel_of w1) = lookup k (sel_of w))).
-      { destruct (run_single _ _ _ _ E1) as [[-> ->]|(w1 & -> & Hf)];
-          [exists w; split; [reflexivity|]; split; [exact Hinv|]; intros; reflexivity|].
-        exists w1. split; [reflexivity|].
-        destruct Hpf as [Hs|((tm & Hfs) & Hc)]; cbn [fst snd] in *.
-        - subst fss. apply (run_selector nonstr sp tp p w w1 Hinv Hf).
-        - destruct (run_nonselector nonstr sp tp p tm fss w w1 Hfs Hinv Hc Hf) as [Hi Hl].
-          split; auto. }
-      destruct Hstep as (w1 & -> & Hinv1 & Hl1).
-      assert (Hok1 : Forall (lt_ok' w1) t).
-      { apply Forall_forall. intros pf Hin. rewrite Forall_forall in Hok'. destruct (Hok' pf Hin) as [Hs|[Ht Hc]]; [left; exact Hs|].
-        right. split; [exact Ht|]. intros kv Hkv. apply (compat_stable _ _ (sel_of w)); [|apply Hc; exact Hkv].
-        apply Hl1. intros Hk. apply (Hdisj (fst kv)); [exact Hk|].
-        unfold lts_keys. apply in_flat_map. exists pf. split; [exact Hin|]. apply in_map. exact Hkv. }
-      destruct (IH w1 rs Hok1 Hnd2 Hinv1 H) as (w' & -> & Hinv' & Hl').
-      exists w'. split; [reflexivity|]. split; [exact Hinv'|]. intros k Hk.
-      cbn [lts_keys flat_map fst] in Hk.
-      rewrite Hl' by (intros Hin; apply Hk; apply in_or_app; right; exact Hin).
-      apply Hl1. intros Hin; apply Hk; apply in_or_app; left; exact Hin.
+    intros Hd HG H. unfold label_transformers in H.
+    assert (K : (do l <- mapM (fun e => do fss <- label_fs default_tc e; Ok (ld_pairs e, fss)) (d_labels d);
+                 Ok (l ++ [(d_common_labels d, tc_common_labels default_tc)])%list) = Ok lts ->
+                Forall (fun pf => lt_sel G pf \/ lt_nonsel pf) lts).
+    { intros H'. destruct (mapM _ (d_labels d)) as [l| | |] eqn:E; cbn [bind] in H'; try discriminate. inv H'.
+      apply Forall_app. split.
+      - assert (HF := mapM_entries_kinds G (d_labels d) l).
+        assert (Hpre : forall e, In e (d_labels d) ->
+                  ld_fields e = [] /\ (ld_selectors e = true -> forall kv, In kv (ld_pairs e) -> In kv G)).
+        { intros e He. split; [apply Hd; exact He|]. intros Hs kv Hkv. apply HG. unfold sel_pairs_of_dir.
+          apply in_or_app; left. apply in_flat_map. exists e. split; [exact He|]. rewrite Hs. exact Hkv. }
+        specialize (HF Hpre E). clear - HF. induction HF as [|e pf l1 l2 [_ Hk] _ IH]; constructor; auto.
+        destruct Hk as [[_ Hk]|[_ Hk]]; auto.
+      - constructor; [|constructor]. left. split; [reflexivity|]. cbn [fst]. intros kv Hkv. apply HG.
+        unfold sel_pairs_of_dir. apply in_or_app; right; exact Hkv. }
+    destruct (d_labels d) as [|e t] eqn:El; [destruct (d_common_labels d) eqn:Ec|]; auto.
+    inv H. constructor.
   Qed.
 
-  (* one kustomization *)
-  Lemma apply_dirs_inv sp tp d w rs :
-    dir_ok d -> NoDup (dirs_keys d) -> inv sp tp w -> nonsel_compat d w ->
-    apply_dirs nonstr default_tc d [w] = Ok rs ->
-    exists w', rs = [w'] /\ inv sp tp w' /\
-               (forall k, ~ In k (dirs_keys d) -> lookup k (sel_of w') = lookup k (sel_of w)).
+  Lemma sel_dirs G sp d x rs :
+    dir_ok d -> (forall kv, In kv (sel_pairs_of_dir d) -> In kv G) ->
+    sel_path_of x = Some sp -> apply_dirs nonstr default_tc d [x] = Ok rs ->
+    exists x', rs = [x'] /\ sel_path_of x' = Some sp /\ ev G (sel_of x) (sel_of x').
   Proof.
-    intros Hd Hnd Hinv Hc H. unfold apply_dirs in H.
+    intros Hd HG Hsp H. unfold apply_dirs in H.
     destruct (label_transformers default_tc d) as [lts| | |] eqn:EL; cbn [bind] in H; try discriminate.
-    pose proof (label_transformers_keys default_tc _ _ EL) as HK.
-    unfold dirs_keys in Hnd. rewrite app_assoc, <- HK in Hnd.
-    destruct (NoDup_app_inv _ _ Hnd) as (Hnd1 & _ & _).
-    destruct (run_transformers nonstr lts [w]) as [rs1| | |] eqn:E1; cbn [bind] in H; try discriminate.
-    destruct (run_transformers_inv sp tp lts w rs1 (lt_ok_ok' d w lts Hc (label_transformers_ok d lts Hd EL)) Hnd1 Hinv E1)
-      as (w1 & -> & Hinv1 & Hl1).
+    destruct (run_transformers nonstr lts [x]) as [rs1| | |] eqn:E1; cbn [bind] in H; try discriminate.
+    destruct (sel_runs G sp lts x rs1 (label_transformers_kinds G d lts Hd HG EL) Hsp E1) as (x1 & -> & Hsp1 & Ev1).
     cbn [tc_common_annotations default_tc] in H.
-    destruct (run_single _ _ _ _ H) as [[Hp ->]|(w2 & -> & Hf)].
-    - exists w1. split; [reflexivity|]. split; [exact Hinv1|]. intros k Hk. apply Hl1.
-      intros Hin. apply Hk. unfold dirs_keys. rewrite app_assoc, <- HK. apply in_or_app; left; exact Hin.
-    - destruct (run_annotations nonstr sp tp _ w1 w2 Hinv1 Hf) as [Hinv2 Hl2].
-      exists w2. split; [reflexivity|]. split; [exact Hinv2|]. intros k Hk. rewrite Hl2. apply Hl1.
-      intros Hin. apply Hk. unfold dirs_keys. rewrite app_assoc, <- HK. apply in_or_app; left; exact Hin.
+    destruct (run_single _ _ _ _ H) as [[_ ->]|(x2 & -> & Hf)]; [exists x1; auto|].
+    destruct (selrun_annotations nonstr _ x1 x2 sp Hsp1 Hf) as [Hsp2 E2].
+    exists x2. split; [reflexivity|]. split; [exact Hsp2|]. rewrite E2. exact Ev1.
   Qed.
 
-  (* the whole chain, copying semantics *)
-  Lemma apply_chain_inv sp tp : forall ds w w',
-    (forall d, In d ds -> dir_ok d) -> NoDup (chain_keys ds) ->
-    inv sp tp w -> (forall d, In d ds -> nonsel_compat d w) ->
+  (* how the selector of any selecting object evolves along a whole chain: every key keeps its value or
+     takes a value written by a run that includes selectors *)
+  Theorem selector_evolution : forall (ds : list dirs) (x x' : node) (sp : string),
+    (forall d, In d ds -> dir_ok d) -> sel_path_of x = Some sp ->
+    apply_chain nonstr default_tc ds x = Ok x' ->
+    sel_path_of x' = Some sp /\ ev (chain_sel_pairs ds) (sel_of x) (sel_of x').
+  Proof.
+    induction ds as [|d t IH]; intros x x' sp Hd Hsp H; cbn [apply_chain] in H.
+    - inv H. split; [exact Hsp|apply ev_refl].
+    - destruct (apply_dirs nonstr default_tc d [x]) as [l| | |] eqn:E1; cbn [bind] in H; try discriminate.
+      destruct (sel_dirs (chain_sel_pairs (d :: t)) sp d x l (Hd d (or_introl eq_refl))) as (x1 & -> & Hsp1 & Ev1); auto.
+      { intros kv Hkv. cbn [chain_sel_pairs flat_map]. apply in_or_app; left; exact Hkv. }
+      destruct (IH x1 x' sp (fun d' Hin => Hd d' (or_intror Hin)) Hsp1 H) as [Hsp' Ev'].
+      split; [exact Hsp'|]. eapply ev_trans; [exact Ev1|].
+      eapply ev_mono; [|exact Ev']. intros kv Hkv. cbn [chain_sel_pairs flat_map]. apply in_or_app; right; exact Hkv.
+  Qed.
+
+  (* "labels declared without includeSelectors never alter a selector", for whole chains: a key that no
+     includeSelectors entry and no commonLabels of the chain sets keeps its value (or absence) in every selector *)
+  Theorem no_selector_change_chain : forall (ds : list dirs) (x x' : node) (sp k : string),
+    (forall d, In d ds -> dir_ok d) -> sel_path_of x = Some sp ->
+    apply_chain nonstr default_tc ds x = Ok x' ->
+    ~ In k (map fst (chain_sel_pairs ds)) ->
+    lookup k (sel_of x') = lookup k (sel_of x).
+  Proof.
+    intros ds x x' sp k Hd Hsp H Hk.
+    destruct (selector_evolution ds x x' sp Hd Hsp H) as [_ E].
+    destruct (E k) as [E1|(v & Hin & _)]; [exact E1|].
+    exfalso. apply Hk. apply in_map_iff. exists (k, v). auto.
+  Qed.
+
+  (* ----- workloads: selector / template agreement along a chain ----- *)
+
+  (* the pairs of an entry without includeSelectors do not fight the selector: compatible with the original
+     selector s0, and equal to whatever value a selector run of G gives the same key *)
+  Definition good (s0 G p : pairs) : Prop :=
+    forall kv, In kv p -> compat (fst kv) (snd kv) s0 /\ forall v', In (fst kv, v') G -> v' = snd kv.
+
+  Lemma good_compat s0 G p s : good s0 G p -> ev G s0 s -> forall kv, In kv p -> compat (fst kv) (snd kv) s.
+  Proof.
+    intros Hg E kv Hkv. destruct (Hg kv Hkv) as [Hc HG]. destruct (E (fst kv)) as [E1|(v' & Hin & E1)].
+    - unfold compat in *. rewrite E1. exact Hc.
+    - right. rewrite E1. f_equal. apply HG. exact Hin.
+  Qed.
+
+  Lemma wl_runs s0 G sp tp : forall lts w rs,
+    Forall (fun pf => lt_sel G pf \/ (lt_nonsel pf /\ good s0 G (fst pf))) lts ->
+    inv sp tp w -> ev G s0 (sel_of w) ->
+    run_transformers nonstr lts [w] = Ok rs ->
+    exists w', rs = [w'] /\ inv sp tp w' /\ ev G s0 (sel_of w').
+  Proof.
+    induction lts as [|[p fss] t IH]; intros w rs Hok Hinv Hev H; cbn [run_transformers] in H.
+    - inv H. exists w. auto.
+    - inversion Hok as [|? ? Hpf Hok']; subst.
+      destruct (run_label_transformer nonstr p fss [w]) as [rs1| | |] eqn:E1; cbn [bind] in H; try discriminate.
+      assert (Hstep : exists w1, rs1 = [w1] /\ inv sp tp w1 /\ ev G s0 (sel_of w1)).
+      { destruct (run_single _ _ _ _ E1) as [[-> ->]|(w1 & -> & Hf)]; [exists w; auto|].
+        exists w1. split; [reflexivity|]. destruct (inv_paths _ _ _ Hinv) as [Hsp _].
+        destruct Hpf as [[Hs HG]|[(tm & Hfs) Hg]]; cbn [fst snd] in *.
+        - subst fss. destruct (run_selector nonstr sp tp p w w1 Hinv Hf) as [Hinv1 _]. split; [exact Hinv1|].
+          destruct (selrun_selector nonstr p w w1 sp Hsp Hf) as [_ E]. eapply ev_trans; [exact Hev|].
+          eapply ev_mono; [exact HG|exact E].
+        - destruct (run_nonselector nonstr sp tp p tm fss w w1 Hfs Hinv (good_compat _ _ _ _ Hg Hev) Hf) as [Hinv1 Hl].
+          split; [exact Hinv1|]. eapply ev_trans; [exact Hev|]. apply ev_same. exact Hl. }
+      destruct Hstep as (w1 & -> & Hinv1 & Hev1). apply (IH w1 rs Hok' Hinv1 Hev1 H).
+  Qed.
+
+  Lemma label_transformers_kinds2 s0 G d lts :
+    dir_ok d -> (forall kv, In kv (sel_pairs_of_dir d) -> In kv G) ->
+    (forall e, In e (d_labels d) -> ld_selectors e = false -> good s0 G (ld_pairs e)) ->
+    label_transformers default_tc d = Ok lts ->
+    Forall (fun pf => lt_sel G pf \/ (lt_nonsel pf /\ good s0 G (fst pf))) lts.
+  Proof.
+    intros Hd HG Hgood H. unfold label_transformers in H.
+    assert (K : (do l <- mapM (fun e => do fss <- label_fs default_tc e; Ok (ld_pairs e, fss)) (d_labels d);
+                 Ok (l ++ [(d_common_labels d, tc_common_labels default_tc)])%list) = Ok lts ->
+                Forall (fun pf => lt_sel G pf \/ (lt_nonsel pf /\ good s0 G (fst pf))) lts).
+    { intros H'. destruct (mapM _ (d_labels d)) as [l| | |] eqn:E; cbn [bind] in H'; try discriminate. inv H'.
+      apply Forall_app. split.
+      - assert (HF := mapM_entries_kinds G (d_labels d) l).
+        assert (Hpre : forall e, In e (d_labels d) ->
+                  ld_fields e = [] /\ (ld_selectors e = true -> forall kv, In kv (ld_pairs e) -> In kv G)).
+        { intros e He. split; [apply Hd; exact He|]. intros Hs kv Hkv. apply HG. unfold sel_pairs_of_dir.
+          apply in_or_app; left. apply in_flat_map. exists e. split; [exact He|]. rewrite Hs. exact Hkv. }
+        specialize (HF Hpre E).
+        assert (Hall : forall e, In e (d_labels d) -> ld_selectors e = false -> good s0 G (ld_pairs e)) by exact Hgood.
+        clear - HF Hall. induction HF as [|e pf l1 l2 [Hfst Hk] _ IH]; constructor.
+        + destruct Hk as [[_ Hk]|[Hse Hk]]; [left; exact Hk|]. right. split; [exact Hk|].
+          rewrite Hfst. apply Hall; [left; reflexivity|exact Hse].
+        + apply IH. intros e' He'. apply Hall. right; exact He'.
+      - constructor; [|constructor]. left. split; [reflexivity|]. cbn [fst]. intros kv Hkv. apply HG.
+        unfold sel_pairs_of_dir. apply in_or_app; right; exact Hkv. }
+    destruct (d_labels d) as [|e t] eqn:El; [destruct (d_common_labels d) eqn:Ec|]; auto.
+    inv H. constructor.
+  Qed.
+
+  Lemma wl_chain s0 G sp tp : forall ds w w',
+    (forall d, In d ds -> dir_ok d) ->
+    (forall d, In d ds -> forall kv, In kv (sel_pairs_of_dir d) -> In kv G) ->
+    (forall d, In d ds -> forall e, In e (d_labels d) -> ld_selectors e = false -> good s0 G (ld_pairs e)) ->
+    inv sp tp w -> ev G s0 (sel_of w) ->
     apply_chain nonstr default_tc ds w = Ok w' -> inv sp tp w'.
   Proof.
-    induction ds as [|d t IH]; intros w w' Hd Hnd Hinv Hc H; cbn [apply_chain] in H.
+    induction ds as [|d t IH]; intros w w' Hd HG Hg Hinv Hev H; cbn [apply_chain] in H.
     - inv H. exact Hinv.
-    - cbn [chain_keys flat_map] in Hnd. destruct (NoDup_app_inv _ _ Hnd) as (Hnd1 & Hnd2 & Hdisj).
-      destruct (apply_dirs nonstr default_tc d [w]) as [l| | |] eqn:E1; cbn [bind] in H; try discriminate.
-      destruct (apply_dirs_inv sp tp d w l (Hd d (or_introl eq_refl)) Hnd1 Hinv (Hc d (or_introl eq_refl)) E1)
-        as (w1 & -> & Hinv1 & Hl1).
-      apply (IH w1 w'); auto.
+    - destruct (apply_dirs nonstr default_tc d [w]) as [l| | |] eqn:E1; cbn [bind] in H; try discriminate.
+      unfold apply_dirs in E1.
+      destruct (label_transformers default_tc d) as [lts| | |] eqn:EL; cbn [bind] in E1; try discriminate.
+      destruct (run_transformers nonstr lts [w]) as [rs1| | |] eqn:ER; cbn [bind] in E1; try discriminate.
+      pose proof (label_transformers_kinds2 s0 G d lts (Hd d (or_introl eq_refl)) (HG d (or_introl eq_refl))
+                    (Hg d (or_introl eq_refl)) EL) as Hk.
+      destruct (wl_runs s0 G sp tp lts w rs1 Hk Hinv Hev ER) as (w1 & -> & Hinv1 & Hev1).
+      cbn [tc_common_annotations default_tc] in E1.
+      assert (Hstep : exists w2, l = [w2] /\ inv sp tp w2 /\ ev G s0 (sel_of w2)).
+      { destruct (run_single _ _ _ _ E1) as [[_ ->]|(w2 & -> & Hf)]; [exists w1; auto|].
+        destruct (run_annotations nonstr sp tp _ w1 w2 Hinv1 Hf) as [Hinv2 Hl2].
+        exists w2. split; [reflexivity|]. split; [exact Hinv2|]. eapply ev_trans; [exact Hev1|apply ev_same; exact Hl2]. }
+      destruct Hstep as (w2 & -> & Hinv2 & Hev2).
+      apply (IH w2 w'); auto.
       + intros d' Hin. apply Hd. right; exact Hin.
-      + intros d' Hin e He Hse kv Hkv. apply (compat_stable _ _ (sel_of w)); [|apply (Hc d' (or_intror Hin) e He Hse kv Hkv)].
-        apply Hl1. intros Hk. apply (Hdisj (fst kv)); [exact Hk|].
-        unfold chain_keys. apply in_flat_map. exists d'. split; [exact Hin|].
-        unfold dirs_keys. apply in_or_app; left. apply in_flat_map. exists e. split; [exact He|]. apply in_map. exact Hkv.
+      + intros d' Hin. apply HG. right; exact Hin.
+      + intros d' Hin. apply Hg. right; exact Hin.
   Qed.
 
-  (* ... and with the node sharing of the implementation *)
-  Theorem own_selector_chain : forall (ds : list dirs) (w : node) (st' : rstate) (sp tp : string),
-    (forall d, In d ds -> dir_ok d) -> NoDup (chain_keys ds) ->
-    (forall d, In d ds -> nonsel_compat d w) ->
+  (* Whole chains, any number of layers, keys may repeat: a workload whose selector matched its pod template
+     still does, provided no entry WITHOUT includeSelectors fights the selector - each of its pairs (k,v) is
+     compatible with the workload's original selector and agrees with every value an includeSelectors entry or
+     commonLabels of the chain gives k. *)
+  Theorem own_selector_chain : forall (ds : list dirs) (w w' : node) (sp tp : string),
+    (forall d, In d ds -> dir_ok d) ->
+    (forall d, In d ds -> forall e, In e (d_labels d) -> ld_selectors e = false ->
+                          good (sel_of w) (chain_sel_pairs ds) (ld_pairs e)) ->
     assoc3 (obj_kind w) k8s_workloads = Some (Some sp, tp) ->
     is_map w = true -> no_seq_along (path_splitter tp) w = true -> selects w w ->
-    apply_chain_al nonstr default_tc ds (w, []) = Ok st' ->
-    selects (fst st') (fst st').
+    apply_chain nonstr default_tc ds w = Ok w' ->
+    selects w' w'.
   Proof.
-    intros ds w st' sp tp Hd Hnd Hc HK Hm Hn Hsel H.
-    pose proof (chain_alias_free nonstr default_tc ds w [] [] st' (covered_nil []) Hnd (fun k _ F => F) H) as Hp.
-    destruct (apply_chain_inv sp tp ds w (fst st') Hd Hnd (conj HK (conj Hm (conj Hn Hsel))) Hc Hp) as (_ & _ & _ & Hs).
-    exact Hs.
+    intros ds w w' sp tp Hd Hg HK Hm Hn Hsel H.
+    destruct (wl_chain (sel_of w) (chain_sel_pairs ds) sp tp ds w w' Hd) as (_ & _ & _ & Hs); auto.
+    - intros d Hin kv Hkv. unfold chain_sel_pairs. apply in_flat_map. exists d. auto.
+    - repeat split; auto.
+    - apply ev_refl.
   Qed.
 End Compose.
 
-(* non-vacuity: a two-layer chain meeting the hypotheses of own_selector_chain *)
+(* non-vacuity: a two-layer chain in which the key [team] is set twice (base commonLabels, overlay entry with
+   includeSelectors) and a metadata+template-only entry adds a fresh key *)
 Example own_selector_chain_nonvacuous :
   let w := wit_deployment "apps/v1" [("app", str "x")] [("app", str "x")] in
   let ds := [mkDirs [] [("team", "t")] [("note", "n")];
-             mkDirs [mkLD [("rel", "r")] false true []; mkLD [("tier", "web")] true false []] [] []] in
-  (forall d, In d ds -> dir_ok d) /\ NoDup (chain_keys ds) /\ (forall d, In d ds -> nonsel_compat d w) /\
-  exists st', apply_chain_al nq default_tc ds (w, []) = Ok st' /\
-              sel_of (fst st') = [("app", "x"); ("team", "t"); ("tier", "web")] /\
-              pod_labels_of (fst st') = [("app", "x"); ("team", "t"); ("rel", "r"); ("tier", "web")].
+             mkDirs [mkLD [("rel", "r")] false true []; mkLD [("team", "u")] true false []] [] []] in
+  (forall d, In d ds -> dir_ok d) /\
+  (forall d, In d ds -> forall e, In e (d_labels d) -> ld_selectors e = false ->
+                        good (sel_of w) (chain_sel_pairs ds) (ld_pairs e)) /\
+  exists w', apply_chain nq default_tc ds w = Ok w' /\
+             sel_of w' = [("app", "x"); ("team", "u")] /\
+             pod_labels_of w' = [("app", "x"); ("team", "u"); ("rel", "r")].
 Proof.
   cbv zeta. split.
   - intros d [<-|[<-|[]]] e; cbn; intuition (subst; reflexivity).
   - split.
-    + vm_compute. repeat constructor; cbn; intuition discriminate.
-    + split.
-      * intros d [<-|[<-|[]]] e; cbn; intros H Hs kv Hkv; intuition (subst; try discriminate).
-        cbn in Hkv. destruct Hkv as [<-|[]]. left. vm_compute. reflexivity.
-      * eexists. split; [vm_compute; reflexivity|]. split; vm_compute; reflexivity.
+    + intros d [<-|[<-|[]]] e He Hs; cbn in He; [destruct He|].
+      destruct He as [<-|[<-|[]]]; [|discriminate].
+      intros kv [<-|[]]. split; [left; vm_compute; reflexivity|].
+      intros v' Hin. vm_compute in Hin. destruct Hin as [Hin|[Hin|[]]]; inversion Hin.
+    + eexists. split; [vm_compute; reflexivity|]. split; vm_compute; reflexivity.
 Qed.
+
